@@ -25,7 +25,7 @@ pub fn families() -> Vec<Family> {
             "1-64 concurrent tasks/batches on one WebSocketClient vs. scripted server replying in seeded order with unknown-id, duplicate and notify-with-in-flight-id frames; notify subscriber",
             c04_ws_client,
         )
-        .runs(1_500, 60_000)
+        .runs(25_000, 1_500_000)
         .tokio(),
         Family::new(
             "c06_ws_client",
@@ -33,7 +33,7 @@ pub fn families() -> Vec<Family> {
             "WebSocketClient with 0-16 calls in flight and a notify subscriber; server closes (Close frame / FIN / RST), sends text / malformed REPE frames / WebSocket garbage at every protocol step; timeouts racing responses; cancellation",
             c06_ws_client,
         )
-        .runs(3_000, 120_000)
+        .runs(100_000, 6_000_000)
         .tokio(),
         Family::new(
             "c05_ws_client",
@@ -41,7 +41,7 @@ pub fn families() -> Vec<Family> {
             "up to 32 concurrent writers on one WebSocketClient, tiny socket buffers, stalled server, callers abandoning calls mid-send; every binary message the server receives must be exactly one whole REPE frame with its own body",
             c05_ws_client,
         )
-        .runs(2_000, 80_000)
+        .runs(25_000, 1_500_000)
         .tokio(),
     ]
 }
@@ -237,6 +237,13 @@ fn c04_ws_client(case: &Case) {
             }
             if permuted {
                 srv_case.probe("replies_out_of_arrival_order");
+            }
+            if answered.len() <= 6 && !answered.is_empty() {
+                // which of the k! reply orders this run exercised (arrival rank of each answered request)
+                let mut arrival: Vec<u64> = seen_ids.iter().copied().filter(|id| answered.iter().any(|a: &Frame| a.id == *id)).collect();
+                arrival.sort();
+                let perm: Vec<String> = answered.iter().map(|a| arrival.iter().position(|x| *x == a.id).unwrap_or(9).to_string()).collect();
+                srv_case.cover("reply_order(k<=6; 1+2+6+24+120+720=873 orders)", format!("{}:{}", answered.len(), perm.join("")));
             }
         });
         let client = match WebSocketClient::connect(&format!("ws://{addr}/repe")).await {
